@@ -100,8 +100,28 @@ def prog_ast(sx):
 
 
 # progen's tyname maps 'str' -> 'string' already; sexp uses 'str'
-def to_nano(p):
-    return progen.to_nano(p, 'prefix')
+class _FixedChain:
+    """a progen rng stand-in: prefix spelling, an else branch that is exactly one `if` is ALWAYS (chain=True) or NEVER written `else if`"""
+    def __init__(self, chain):
+        self.v = 0.0 if chain else 1.0
+    def random(self):
+        return self.v
+
+
+def to_nano(p, chain=True):
+    return progen.to_nano(p, 'prefix', _FixedChain(chain))
+
+
+def in_else_if(body, path):
+    """does the path go through (or end at) an `if` that is the whole else branch of an enclosing `if`?"""
+    try:
+        chain = node_at(body, path)
+    except Exception:
+        return False
+    for i in range(1, len(chain)):
+        if chain[i][0] == 'if' and chain[i - 1][0] == 'if' and path[i - 1] == 2:
+            return True
+    return False
 
 
 # ------------------------------------------------------------------------------------------------ context of a mutation
@@ -266,7 +286,7 @@ def root_cause(rule, orig_fn, path, arg=0):
     known findings), or None when every construct on the way compares types and the mutant must be refused."""
     if rule in SILENT:
         return SILENT[rule]
-    if rule in ('set-immutable', 'set-param', 'set-loopvar', 'wrong-return', 'return-novalue'):
+    if rule in ('set-immutable', 'set-param', 'set-loopvar', 'wrong-return', 'return-novalue', 'void-variable', 'dup-param', 'main-param'):
         return None
     try:
         chain = node_at(orig_fn['body'], path)
